@@ -158,6 +158,7 @@ CHECKS["C17"] = dict(
         dict(name="frame-boundaries", test="TestFrameBoundaries", kind="plain"),
         dict(name="sequences", test="TestSequences", kind="rapid", checks={"quick": 400, "thorough": 12000}, shards=8, timeout={"quick": 600, "thorough": 3000},
              crash_is_violation=True),
+        dict(name="fuzz-frame", test="FuzzFrame", kind="fuzz", fuzz_part="frames", tiers=["thorough"], fuzztime="120s", timeout=400, exclusive=True),
         dict(name="binary", test="TestBinary", kind="rapid", checks={"quick": 10, "thorough": 150}, shards=8, timeout={"quick": 600, "thorough": 3000},
              needs_binary=True, shrinktime="60s"),
     ],
@@ -396,6 +397,8 @@ CHECKS["C11"] = dict(
         dict(name="scanreply", test="TestScanReplies", kind="rapid", checks={"quick": 5000, "thorough": 200000}, shards=2, timeout={"quick": 900, "thorough": 3400}, crash_is_violation=True),
         dict(name="requestvalue", test="TestRequestValues", kind="rapid", checks={"quick": 3000, "thorough": 100000}, shards=4, timeout={"quick": 900, "thorough": 3400}, crash_is_violation=True),
         dict(name="clusternodes-socket", test="TestHostileClusterNodes", kind="rapid", checks={"quick": 20, "thorough": 800}, shards=16, timeout={"quick": 900, "thorough": 3400}, gomaxprocs=4, crash_is_violation=True),
+        dict(name="fuzz-decoder", test="FuzzDecoder", kind="fuzz", fuzz_part="decoder", tiers=["thorough"], fuzztime="150s", timeout=400, exclusive=True),
+        dict(name="fuzz-clusternodes", test="FuzzClusterNodes", kind="fuzz", fuzz_part="clusternodes", tiers=["thorough"], fuzztime="120s", timeout=400, exclusive=True),
         dict(name="sockets", test="TestHostileSockets", kind="rapid", checks={"quick": 40, "thorough": 1500}, shards=16, timeout={"quick": 900, "thorough": 3400}, gomaxprocs=4, crash_is_violation=True),
     ],
 )
